@@ -11,6 +11,13 @@ oracle : this file: `insts` (every slot replaced independently by a value of its
          of values, mass conservation, row sums.
 Languages are read off the rule tables by exhaustive top-down expansion (no use of the
 membership test, the counters or the enumerators of the implementation).
+
+Variants of the code.  The Lean model takes a `Fix` = which of the proposed repairs
+(fixes_proposed/C17-F2.diff, C17-F3.diff, C17-F4.diff) are in the code.  `probe_fix` runs the
+implementation on the three former witnesses and asks the driver for that variant, so the check
+is green on /repo as it is (failures in the regions of the findings that are still present are
+reported as those known findings) and on the repaired tree (where the former witnesses pass
+and any failure in the former regions is a violation).
 """
 import ast
 import hashlib
@@ -33,6 +40,33 @@ VALUE_POOL = {
     "bool": [["b", True], ["b", False], ["i", 1], ["i", 0], ["s", "True"]],
     "str": [["s", "a"], ["s", ""], ["s", "b c"], ["s", "1"], ["i", 1], ["s", "<str>"]],
 }
+
+
+# ------------------------------------------------------------------ which repairs are in the implementation
+_FIX = None
+
+
+def probe_fix():
+    """(f2, f3, f4): behaviour of the implementation at the witnesses of C17-F2 / C17-F3 / C17-F4"""
+    global _FIX
+    if _FIX is not None:
+        return _FIX
+    from synth.syntax import CFG, DSL, ProbDetGrammar
+    from synth.syntax.program import Constant
+    from synth.syntax.type_system import BOOL, INT, Arrow
+    dsl = DSL({"+": Arrow(INT, Arrow(INT, INT)), "1": INT})
+    cfg = CFG.depth_constraint(dsl, Arrow(INT, INT), 2, constant_types={INT})
+    once = cfg.instantiate_constants({INT: [5, 7]})
+    twice = once.instantiate_constants({INT: [5, 6]})
+    f2 = all(list(map(str, once.rules[S])) == list(map(str, twice.rules[S])) for S in once.rules)
+    p = ProbDetGrammar.uniform(cfg).instantiate_constants({INT: [5, 5]})
+    f3 = all(abs(sum(row.values()) - 1) < 1e-9 for row in p.tags.values())
+    try:
+        f4 = [str(x) for x in Constant(BOOL).all_constants_instantiation({INT: [1]})] == [str(Constant(BOOL))]
+    except KeyError:
+        f4 = False
+    _FIX = (f2, f3, f4)
+    return _FIX
 
 
 # ------------------------------------------------------------------ values
@@ -500,23 +534,42 @@ def check(case, M):
         tags.append("already-instantiated-once")
     table = {t: [canon(value_of(v)) for v in vals] for t, vals in table_l}          # oracle's table (harness types, canonical values)
     tbl_repo = {W.tt_repo(t): [value_of(v) for v in vals] for t, vals in table_l}
-    # ---- decidable classifiers of the open findings, on the input grammar and the table
+    # ---- which repairs the implementation contains (probed at the former witnesses)
+    FX = probe_fix()
+    fx_w = [int(FX[0]), int(FX[1]), int(FX[2])]
+    tags.append("code-variant: " + ("as it is in /repo" if not any(FX) else "all three repairs" if all(FX) else "repairs " + "+".join(n for n, b in zip(("F2", "F3", "F4"), FX) if b)))
+    # ---- decidable classifiers of the findings, on the input grammar and the table
     slot_types = set()
     assigned_types = set()
+    assigned = set()
     for S in cfg.rules:
         for P in cfg.rules[S]:
             if isinstance(P, Constant):
                 (assigned_types if P.has_value() else slot_types).add(W.repo_tt(P.type))
-    f1 = any(t in table and len(table[t]) == 0 for t in slot_types | assigned_types)
-    f2 = any(t in table for t in assigned_types)
-    f3 = any(t in table and len(set(table[t])) != len(table[t]) for t in slot_types | assigned_types)
+                if P.has_value():
+                    assigned.add((W.repo_tt(P.type), canon(P.value)))
+    inst_types = slot_types | (set() if FX[0] else assigned_types)      # the types of the constants the code instantiates
+    f1 = any(t in table and len(table[t]) == 0 for t in inst_types)
+    f2 = (not FX[0]) and any(t in table for t in assigned_types)
+    f3 = (not FX[1]) and any(t in table and len(set(table[t])) != len(table[t]) for t in inst_types)
+    # a constant of the grammar already carries a value that the table lists for its type: outside the
+    # hypothesis rulesOK of the generic theorems when the code leaves such a constant alone (repair of F2) ...
+    listed = FX[0] and any(t in table and v in table[t] for t, v in assigned)
+    # ... and a genuinely ambiguous input (outside grammarWF) when that type still has a slot in the grammar
+    ambiguous = any(t in table and t in slot_types and v in table[t] for t, v in assigned)
     region = "C17-F2" if f2 else "C17-F1" if f1 else "C17-F3" if f3 else None
     if f1:
         tags.append("empty-value-list-of-a-slot(C17-F1 region)")
     if f2:
         tags.append("assigned-constant-of-a-table-type(C17-F2 region)")
+    elif any(t in table for t in assigned_types):
+        tags.append("assigned-constant-of-a-table-type(former C17-F2 region)")
     if f3:
         tags.append("duplicate-values-of-a-slot(C17-F3 region)")
+    elif any(t in table and len(set(table[t])) != len(table[t]) for t in inst_types):
+        tags.append("duplicate-values-of-a-slot(former C17-F3 region)")
+    if ambiguous:
+        tags.append("assigned-constant-listed-for-a-slot-type(ambiguous templates)")
     if any(t not in slot_types and t not in assigned_types for t in table):
         tags.append("table-type-without-slot")
     if any(t not in table for t in slot_types):
@@ -592,20 +645,29 @@ def check(case, M):
                 fail("oracle", "programs() of the instantiated grammar is not the number of instantiations", f"{np_} vs {len(expected)}", lang=True)
         except Exception as e:  # noqa
             fail("oracle", "programs() raises on the instantiated grammar", type(e).__name__)
-    if clash is not None and not f2:
-        raise RuntimeError(f"oracle: an instantiation has two templates outside the C17-F2 region: {clash}")
+    if clash is not None and not ambiguous:
+        raise RuntimeError(f"oracle: an instantiation has two templates although no assigned constant is listed for a slot type: {clash}")
     # ---- candidates: members of the expected language + neighbours
     exp_list = [expected[k] for k in sorted(expected)]
     sample = exp_list if len(exp_list) <= 250 else rng.sample(exp_list, 250)
     neigh = neighbours(rng, templates, [x for _, x in sample], table, const_types)
     cands = [x for _, x in sample] + neigh
     tsample = templates if len(templates) <= 60 else rng.sample(templates, 60)
-    ans = M.ask([Sym("c17.det"), cfg_w(cfg), tags_w(ptags), tbl_w(table_l), [term_w(t) for t in tsample], [term_w(t) for t in cands]])
+    ans = M.ask([Sym("c17.det"), fx_w, cfg_w(cfg), tags_w(ptags), tbl_w(table_l), [term_w(t) for t in tsample], [term_w(t) for t in cands]])
     hyps, m_cfg, m_tags, m_sums0, m_sums1, m_templ, m_cand = ans
-    h_rules, h_tags, h_ne_rules, h_ne_tags = [x == "1" for x in hyps]
-    if h_rules != (not f2 and not f3) or h_ne_rules != (not f1):
-        raise RuntimeError(f"Lean hypotheses {hyps} and the harness classifiers f1={f1} f2={f2} f3={f3} disagree")
+    g_rules, g_tags, g_ne_rules, g_ne_tags, w_rules, w_tags, w_tagsg, w_ne_rules, w_ne_tags = [x == "1" for x in hyps]
+    if g_rules != (not f2 and not f3 and not listed) or g_ne_rules != (not f1) or w_rules != (not ambiguous) or (FX[0] and w_ne_rules != (not f1)):
+        raise RuntimeError(f"Lean hypotheses {hyps} and the harness classifiers f1={f1} f2={f2} f3={f3} listed={listed} ambiguous={ambiguous} disagree")
+    if all(FX):
+        # the theorems for the repaired code: grammarWF / tagsWF / slotsNonEmpty
+        h_rules, h_tags, h_ne_rules, h_ne_tags = w_rules, w_tags and w_tagsg, w_ne_rules, w_ne_tags
+    else:
+        # the generic `_partial` theorems for this variant: rulesOK fx / rulesNonEmpty fx
+        h_rules, h_tags, h_ne_rules, h_ne_tags = g_rules, g_tags, g_ne_rules, g_ne_tags
+    if ambiguous:
+        tags.append("outside-the-hypotheses(ambiguous templates)")
     hyp_all = h_rules and h_tags and h_ne_rules and h_ne_tags
+    tags.append("theorem-hypotheses: all hold" if hyp_all else "theorem-hypotheses: language ones hold, an empty value list (C17-F1)" if h_rules and h_tags else "theorem-hypotheses: fail")
     # ---- correspondence: tables in dict order, tags
     i_cfg = plain(cfg_w(g2))
     if i_cfg != plain(m_cfg):
@@ -623,7 +685,8 @@ def check(case, M):
             if abs(w - mw) > TOL:
                 fail("corr", "instantiated probability differs from the model's", f"{k_}: {float(w)} vs {float(mw)}")
                 break
-        if case["weights"] == "dyadic" and all(len(v) in (1, 2, 4) for v in table.values()) and i_tags != mt:
+        # divisions by 1, 2, 4 are exact in floating point (the code divides by the number of distinct values with the repair of C17-F3)
+        if case["weights"] == "dyadic" and all(len(set(v) if FX[1] else v) in (1, 2, 4) for v in table.values()) and i_tags != mt:
             fail("corr", "instantiated probability differs from the model's (exact dyadic arithmetic)", "")
     # ---- the property: row sums (normalisation) — oracle on the implementation's tags
     for S in pg.tags:
@@ -693,9 +756,9 @@ def check(case, M):
     def prog_side(t, mlist):
         """impl listing vs model listing (order) and vs the oracle (exactly once); True when something failed"""
         want = insts(table, t)
-        has_missing = any(s[1] not in table for s in _const_heads(t))
-        has_assigned = any(s[2] != "" and s[1] in table for s in _const_heads(t))
-        dup = any(s[1] in table and len(set(table[s[1]])) != len(table[s[1]]) for s in _const_heads(t))
+        has_missing = (not FX[2]) and any(s[1] not in table and (s[2] == "" or not FX[0]) for s in _const_heads(t))
+        has_assigned = (not FX[0]) and any(s[2] != "" and s[1] in table for s in _const_heads(t))
+        dup = (not FX[1]) and any(s[1] in table and len(set(table[s[1]])) != len(table[s[1]]) and (s[2] == "" or not FX[0]) for s in _const_heads(t))
         fid = "C17-F4" if has_missing else "C17-F2" if has_assigned else "C17-F3" if dup else None
         try:
             got = [prog_h(x) for x in R(t).all_constants_instantiation(tbl_repo)]
@@ -748,7 +811,7 @@ def check(case, M):
             extra.append(t2)
     for t in extra[:10]:
         want = insts(table, t)
-        m_ok, m_list, m_bits = M.ask([Sym("c17.prog"), tbl_w(table_l), term_w(t), [term_w(x) for x in want[:50]]])
+        m_ok, m_list, m_bits = M.ask([Sym("c17.prog"), fx_w, tbl_w(table_l), term_w(t), [term_w(x) for x in want[:50]]])
         mlist = "KeyError" if m_list[0] == "none" else [wire_term(w) for w in m_list[1:]]
         if any(b != "1" for b in m_bits):
             raise RuntimeError(f"Lean isInst rejects an instantiation computed by the oracle: {show(t)}")
@@ -775,13 +838,13 @@ def check(case, M):
     except Exception as e:  # noqa
         fail("oracle", "TaggedDetGrammar.instantiate_constants raises", f"{type(e).__name__}: {e}")
     # ---- unambiguous grammars
-    check_u(case, M, cfg, tbl_repo, table, table_l, templates, expected, sample, tsample, R, fail, hyp_all, rng)
+    check_u(case, M, cfg, tbl_repo, table, table_l, templates, expected, sample, tsample, R, fail, hyp_all, rng, FX)
     nslots = sum(1 for t in templates if any(s[1] in table for s in _slots(t)))
     nontrivial = len(templates) >= 2 and nslots >= 1 and len(expected) >= 2 and any(a for _, a in templates)
     tags.append("templates<10" if len(templates) < 10 else "templates<100" if len(templates) < 100 else "templates>=100")
     tags.append("instantiations<10" if len(expected) < 10 else "instantiations<100" if len(expected) < 100 else "instantiations<1000" if len(expected) < 1000 else "instantiations>=1000")
     if miss:
-        tags.append("program-with-slot-type-not-in-table(C17-F4 region)")
+        tags.append("program-with-slot-type-not-in-table(" + ("former " if FX[2] else "") + "C17-F4 region)")
     return {"key": keytxt, "nontrivial": nontrivial, "tags": tags, "failures": failures,
             "sample": {"prims": {n: G.ty_str(t) for n, t in prims}, "request": G.ty_str(request), "max_depth": md,
                        "constant_types": [G.ty_str(t) for t in const_types],
@@ -851,7 +914,7 @@ def neighbours(rng, templates, members, table, const_types):
     return out
 
 
-def check_u(case, M, cfg, tbl_repo, table, table_l, templates, expected, sample, tsample, R, fail, hyp_all, rng):
+def check_u(case, M, cfg, tbl_repo, table, table_l, templates, expected, sample, tsample, R, fail, hyp_all, rng, FX):
     from synth.syntax import UCFG, ProbUGrammar
     u = UCFG.from_CFG(cfg)
     u.type_request = cfg.type_request      # the true request (from_CFG only guesses it): instantiation must keep it
@@ -880,8 +943,9 @@ def check_u(case, M, cfg, tbl_repo, table, table_l, templates, expected, sample,
             fail("oracle", "programs() of the instantiated unambiguous grammar is not the number of instantiations", f"{u2.programs()} vs {len(expected)}", lang=True)
     except (RecursionError, OverflowError) as e:
         fail("oracle", "instantiated unambiguous grammar cannot be expanded", type(e).__name__, lang=True)
-    ans = M.ask([Sym("c17.u"), utable_w(u.rules), utags_w(utags), tbl_w(table_l)])
+    ans = M.ask([Sym("c17.u"), [int(FX[0]), int(FX[1]), int(FX[2])], utable_w(u.rules), utags_w(utags), tbl_w(table_l)])
     hyps, m_tab, m_tags, s0, s1 = ans
+    hyps = (hyps[4:] if all(FX) else hyps[:4])
     if canon_tbl(plain(utable_w(u2.rules))) != canon_tbl(plain(m_tab)):
         fail("corr", "instantiated unambiguous rule table differs from the model's", first_diff(plain(utable_w(u2.rules)), plain(m_tab)))
     it = {json.dumps([plain(arg_w(S)), plain(sym_w(sym_h(P))), plain([arg_w(a) for a in alt])]): Fraction(w)
@@ -924,5 +988,8 @@ def corpus():
         dict(base, table=[["int", [["i", 1], ["b", True], ["s", "1"], ["f", 1.0]]]]),         # values that print alike / are == in Python
         dict(base, table=[["int", [["i", 5], ["i", 5]]]], weights="dyadic"),                  # C17-F3
         dict(base, table=[["int", [["i", 5], ["i", 6]]]], pre_table=[["int", [["i", 5], ["i", 7]]]]),   # C17-F2
-        dict(base, table=[["bool", [["b", True]]], ["str", [["s", "x"]]]]),                   # slot type not in the table; type without slot
+        dict(base, table=[["bool", [["b", True]]], ["str", [["s", "x"]]]]),                   # C17-F4: slot type not in the table; type without slot
+        # the three former witnesses at once: already instantiated (5 listed again), a duplicate, int slots left out
+        dict(base, table=[["bool", [["b", True], ["b", False], ["b", True]]], ["int", [["i", 5], ["i", 6]]]], pre_table=[["int", [["i", 5], ["i", 7]]]], weights="dyadic"),
+        dict(base, table=[["int", [["i", 5], ["i", 5], ["i", 6]]]], pre_table=[["bool", [["b", True]]]], weights="dyadic"),
     ]
